@@ -11,7 +11,7 @@ Extraction "model.ml"
   escape_string unescape_string dec_of_Z
   tokenize unquote text is_alpha_rust
   lit_render lit_template decode_strings_at decode_bytes_at eng_lex_ident iden_prepare quote_char eng_tokens idents_of
-  rquery rexpr emit_inline emit_params tables_of build_select build_insert build_update build_delete
+  rquery rexpr emit_inline emit_params value_to_string tables_of build_select build_insert build_update build_delete
   build_cond build_onconflict into_condition api_between api_not_between api_like api_not_like api_is_in
   api_is_not_in api_in_tuples api_is_null api_is_not_null api_cast_as api_in_subquery api_exists
   to_simple_expr expr_into_condition.
